@@ -83,6 +83,22 @@ __CPROVER_ensures (__CPROVER_return_value->repr[gh_j] == name[gh_j])
 __CPROVER_ensures (((struct symb **) symbs_ptr->symbs_vlo.vlo_free)[-1] == __CPROVER_return_value && ((struct symb **) symbs_ptr->terms_vlo.vlo_free)[-1] == __CPROVER_return_value)
 ;
 
+/* ---- symb_add_nonterm ---- */
+struct symb *add_nonterm_c (const char *name)
+__CPROVER_requires (symbs_ptr != NULL && name == gh_name && gh_slen < CAP && gh_j <= gh_slen)
+__CPROVER_requires (symbs_ptr->n_terms >= 0 && symbs_ptr->n_nonterms >= 0 && symbs_ptr->n_terms < 100000 && symbs_ptr->n_nonterms < 100000)
+__CPROVER_assigns (symbs_ptr->n_nonterms, symbs_ptr->symbs_os, symbs_ptr->symbs_vlo, symbs_ptr->nonterms_vlo, gh_newlen, gh_newcap,
+                   __CPROVER_object_whole (symbs_ptr->symbs_os.os_top_object_free), __CPROVER_object_whole (symbs_ptr->symbs_vlo.vlo_free), __CPROVER_object_whole (symbs_ptr->nonterms_vlo.vlo_free))
+__CPROVER_ensures (!__CPROVER_return_value->term_p && __CPROVER_return_value->u.nonterm.rules == NULL && __CPROVER_return_value->u.nonterm.loop_p == 0
+                   && __CPROVER_return_value->u.nonterm.nonterm_num == __CPROVER_old (symbs_ptr->n_nonterms)
+                   && __CPROVER_return_value->num == __CPROVER_old (symbs_ptr->n_terms) + __CPROVER_old (symbs_ptr->n_nonterms)
+                   && symbs_ptr->n_nonterms == __CPROVER_old (symbs_ptr->n_nonterms) + 1)
+/* C13: the name is COPIED into the grammar's storage */
+__CPROVER_ensures (__CPROVER_return_value->repr != name && !__CPROVER_same_object (__CPROVER_return_value->repr, name))
+__CPROVER_ensures (__CPROVER_return_value->repr[gh_j] == name[gh_j])
+__CPROVER_ensures (((struct symb **) symbs_ptr->symbs_vlo.vlo_free)[-1] == __CPROVER_return_value && ((struct symb **) symbs_ptr->nonterms_vlo.vlo_free)[-1] == __CPROVER_return_value)
+;
+
 static void mk_os (os_t *os)
 { size_t L, so, len; __CPROVER_assume (L >= 1 && L <= CAP && so >= PAY && so % _OS_ALIGNMENT == 0 && so <= PAY + L + 7 && (so <= PAY + L ? len <= PAY + L - so : len == 0));
   os->os_current_segment = malloc (L + HDR); __CPROVER_assume (os->os_current_segment != NULL);
@@ -100,6 +116,7 @@ static void world (void)
   mk_os (&symbs_ptr->symbs_os); mk_vlo (&symbs_ptr->symbs_vlo); mk_vlo (&symbs_ptr->terms_vlo); mk_vlo (&symbs_ptr->nonterms_vlo);
 }
 void h_add_term (void) { int code; world (); symb_add_term (gh_name, code); VACUITY_CANARY (); }
+void h_add_nonterm (void) { world (); symb_add_nonterm (gh_name); VACUITY_CANARY (); }
 
 /* ---- T.copy.rule: rule_new_start stores a COPY of the abstract node name in the grammar's rule storage ---- */
 struct rule *rule_start_c (struct symb *lhs, const char *anode, int anode_cost)
